@@ -15,6 +15,7 @@ type Prelude struct {
 	decls    []string
 	seen     map[string]bool
 	typeTags map[string]int
+	errIface *types.Interface // the module's Error interface (typed errors, C14)
 	lits     map[string]string
 	structs  map[string]*types.Struct
 	pending  []string
@@ -29,6 +30,7 @@ func newPrelude(bv bool) *Prelude {
 (declare-datatypes ((Iface 0)) (((mkI (itag Int) (ipay Int)))))
 (declare-datatypes ((Slice 0)) (((mkS (sbase Int) (soff Int) (slen_ Int) (scap Int)))))
 (declare-fun isptrtag (Int) Bool)
+(declare-fun impl_ucfg_Error (Int) Bool)
 (declare-fun elem (Int Int) Int)
 (declare-fun ebase (Int) Int)
 (declare-fun eidx (Int) Int)
@@ -64,6 +66,13 @@ func (p *Prelude) tag(t types.Type) int {
 	}
 	v := len(p.typeTags) + 1
 	p.typeTags[k] = v
+	if p.errIface != nil {
+		if types.Implements(t, p.errIface) {
+			p.decls = append(p.decls, fmt.Sprintf("(assert (impl_ucfg_Error %d))", v))
+		} else if _, isIface := t.Underlying().(*types.Interface); !isIface {
+			p.decls = append(p.decls, fmt.Sprintf("(assert (not (impl_ucfg_Error %d)))", v))
+		}
+	}
 	// only pointer-shaped dynamic types carry a heap reference as payload; other values are boxed
 	switch t.Underlying().(type) {
 	case *types.Pointer, *types.Map, *types.Chan:
